@@ -217,6 +217,11 @@ def setter_value(rng, field, cur=None):
     raise KeyError(field)
 
 
+ALL_OPS = ["create_root_crate", "create_root_crate_after", "create_sub_crate", "create_sub_crate_after", "crate.set_name",
+           "crate.set_parent", "crate.set_parent(root)", "remove_crate", "crate.add_track", "crate.remove_track",
+           "crate.clear_tracks", "create_track", "track.update", "remove_track"] + ["track.set_" + f for f in SETTER_FIELDS]
+
+
 class Hist:
     """A history under construction.  Tracks which handles are live so that
     generated operations are applicable.  Lines are harness commands."""
@@ -230,10 +235,12 @@ class Hist:
         self.nc = self.nt = 0
         self.names = {}      # var -> name
         self.ops_used = {}
+        self.op_names = []
         self.full_track = None   # a track created with every optional field present (every setter applies to it)
 
     def _count(self, op):
         self.ops_used[op] = self.ops_used.get(op, 0) + 1
+        self.op_names.append(op)        # aligned with self.lines (every line is counted just before it is appended)
 
     def fresh_name(self, parent):
         used = {self.names[c] for c, p in self.crates.items() if p == parent}
@@ -467,6 +474,44 @@ class Hist:
             go("mksub", p=par, name="u%d" % self.rng.randrange(10 ** 6))
         return self
 
+    def sweep(self):
+        """One instance of EVERY public mutating operation on the current state: the 26 setters (on the track that has
+        every optional field), then every crate / track / membership operation, each group in random order."""
+        def go(g, **kw):
+            r = getattr(self, "op_" + g)(**kw)
+            if r:
+                self._count(r[0])
+                self.lines.append(r[1])
+            return r
+        if self.full_track not in self.tracks:
+            go("mktrack", full=True)
+        fields = list(SETTER_FIELDS)
+        self.rng.shuffle(fields)
+        for f in fields:
+            go("set", field=f, t=self.full_track)
+        rest = [("rename", {}), ("setparent", {}), ("setparent", {"to_root": True}), ("mkroot", {}), ("mkroot_after", {}),
+                ("mksub", {}), ("mksub_after", {}), ("mktrack", {}), ("update", {}), ("addtrack", {}), ("rmtrackfrom", {}),
+                ("cleartracks", {"c": self.biggest_crate()}), ("rmtrack", {}), ("rmcrate", {})]
+        self.rng.shuffle(rest)
+        for g, kw in rest:
+            if g == "setparent" and not kw:
+                for _ in range(12):     # a re-parenting under another crate (not to the root)
+                    c = self.clone()
+                    c.rng = self.rng
+                    r = c.op_setparent()
+                    if r and r[0] == "crate.set_parent":
+                        break
+                else:
+                    continue
+                # replay the successful choice on self
+                v, p_ = r[1].split(" ")[1:3]
+                self.crates[v] = p_
+                self._count(r[0])
+                self.lines.append(r[1])
+                continue
+            go(g, **kw)
+        return self
+
     GENERATORS = ["mkroot", "mkroot_after", "mksub", "mksub_after", "rename", "setparent", "rmcrate", "mktrack",
                   "update", "rmtrack", "set", "addtrack", "rmtrackfrom", "cleartracks"]
     WEIGHTS = [3, 1, 4, 1, 2, 2, 1, 3, 1, 1, 5, 4, 1, 1]
@@ -489,20 +534,25 @@ class Hist:
         h.nc, h.nt, h.names = self.nc, self.nt, dict(self.names)
         h.ops_used = dict(self.ops_used)
         h.full_track = self.full_track
+        h.op_names = list(self.op_names)
         return h
 
 
-def gen_history(rng, schema, n, seed_state=True, enrich=False):
+def gen_history(rng, schema, n, seed_state=True, enrich=False, sweep=False):
     """A history of about n operations (first a few that guarantee crates,
     tracks and memberships exist).  enrich=True: finish with the operations that
     make the state non-degenerate for multi-row operations (see Hist.enrich);
-    enrich="early": do that right after the seeding operations instead."""
+    enrich="early": do that right after the seeding operations instead.
+    sweep: then one instance of every public mutating operation (Hist.sweep),
+    the random operations follow."""
     h = Hist(rng, schema)
     if seed_state:
         h.step("mkroot"); h.step("mktrack", rich=True); h.step("mksub"); h.step("mkroot")
         h.step("addtrack"); h.step("mktrack", rich=False)
     if enrich == "early":
         h.enrich()      # the random part then works on a state with multi-row crates / shared tracks / subtrees
+    if sweep:
+        h.sweep()       # every public mutating operation at least once
     while len(h.lines) < n:
         if not h.step():
             break
